@@ -97,7 +97,10 @@ def run_config(cfg, dev_sets):
         try:
             h1, r1 = one_run(apply_dev(cfg, devs))
         except Exception as e:  # noqa: BLE001
-            out.append(("deviation-raises:" + "+".join(devs), f"deviation {devs} raised {type(e).__name__}: {e}", devs))
+            if isinstance(e, TypeError) and "pickle" in str(e) and "folder" in devs and isinstance(cfg.get("scheduler", "rr"), dict):
+                out.append(("rl-scheduler-unpicklable", f"deviation {devs} raised {type(e).__name__}: {e}", devs))
+            else:
+                out.append(("deviation-raises:" + "+".join(devs), f"deviation {devs} raised {type(e).__name__}: {e}", devs))
             continue
         d = compare(h0, r0, h1, r1, cfg)
         if d:
